@@ -522,6 +522,18 @@ func TestC01_BridgeConservation(t *testing.T) {
 				}
 				check(t, what)
 			},
+			"changeTax": func(t *rapid.T) {
+				tk := toks[rapid.IntRange(0, len(toks)-1).Draw(t, "token")]
+				r := rapid.SampledFrom([]string{"0", "1/5", "0.0025", "7/3", "1/2"}).Draw(t, "rate")
+				bt := &skywaytypes.BridgeTax{Token: tk.denom, Rate: r}
+				if ex := rapid.IntRange(-1, 2).Draw(t, "exempt"); ex >= 0 {
+					bt.ExemptAddresses = []sdk.AccAddress{users[ex].Addr}
+				}
+				if err := k.SetBridgeTax(b.Ctx(), bt); err != nil {
+					t.Fatalf("tax: %v", err)
+				}
+				log = append(log, fmt.Sprintf("tax(%s,%s)", tk.denom[len(tk.denom)-4:], r))
+			},
 			"armFault": func(t *rapid.T) {
 				site := rapid.SampledFrom(bridge.Sites).Draw(t, "site")
 				kk := rapid.IntRange(1, 3).Draw(t, "kth")
